@@ -306,7 +306,7 @@ def _gen_assign(rng, attr, n, kind=None):
 
 
 def _wrong_lengths(n):
-    return sorted({L for L in (n - 1, n + 1, 0, 2 * n, n + 3) if L >= 0 and L != n})
+    return sorted({L for L in (n - 1, n + 1, 0, 1, 2 * n, n + 3) if L >= 0 and L != n})
 
 
 def _gen_wronglen(rng, attr, n, kind=None, length=None):
